@@ -847,4 +847,51 @@ theorem default_guess_accepted' (n : Nat) (hn : 1 ≤ n) (m : Rat) :
   · have h0 : n ≠ 0 := by omega
     simp [h1, h0]
 
+/-! ## when `_handle_amplitude_constraint` refuses -/
+
+theorem allcloseOne_one : allcloseOne 1 = true := by decide +kernel
+
+theorem allcloseOne_iff (s : Rat) : allcloseOne s = true ↔ |s - 1| ≤ (11 : Rat) / 1000000 := by
+  unfold allcloseOne
+  simp only [decide_eq_true_eq]
+  by_cases h : s - 1 < 0
+  · rw [if_pos h, abs_of_neg h]; constructor <;> intro h' <;> linarith
+  · rw [if_neg h, abs_of_nonneg (not_lt.1 h)]
+
+theorem handleConstraint_none_iff (n : Nat) (params : List Rat) (mask : Option (List Bool)) :
+    handleConstraint n params mask = none ↔
+      ((fixedOf params mask).length ≠ params.length ∨ params.length ≠ 2 * n
+        ∨ 1 < ampSum n params (fixedOf params mask)
+        ∨ (countTrue n ((fixedOf params mask).map (!·)) = 0
+            ∧ (11 : Rat) / 1000000 < |ampSum n params (fixedOf params mask) - 1|)) := by
+  unfold handleConstraint
+  simp only
+  by_cases h1 : (fixedOf params mask).length ≠ params.length
+  · simp [h1]
+  · by_cases h2 : params.length ≠ 2 * n
+    · simp [h1, h2]
+    · by_cases h3 : 1 < ampSum n params (fixedOf params mask)
+      · simp [h1, h2, h3]
+      · rw [if_neg h1, if_neg h2, if_neg h3]
+        by_cases h4 : countTrue n ((fixedOf params mask).map (!·)) = 1
+        · have hone : ampSum n params (fixedOf params mask) + (1 - ampSum n params (fixedOf params mask)) = 1 := by
+            ring
+          rw [if_pos h4, hone, if_pos allcloseOne_one]
+          simp [h1, h2, h3, h4]
+        · rw [if_neg h4]
+          have hac := allcloseOne_iff (ampSum n params (fixedOf params mask))
+          by_cases h5 : countTrue n ((fixedOf params mask).map (!·)) = 0
+          · by_cases h6 : allcloseOne (ampSum n params (fixedOf params mask)) = true
+            · have := hac.1 h6
+              simp only [h5, h6, not_true_eq_false, and_false, if_false]
+              simp only [h1, h2, h3, false_or, true_and]
+              constructor
+              · intro h; cases h
+              · intro h; linarith
+            · have : (11 : Rat) / 1000000 < |ampSum n params (fixedOf params mask) - 1| := by
+                by_contra hc
+                exact h6 (hac.2 (not_lt.1 hc))
+              simp [h1, h2, h3, h5, h6, this]
+          · simp [h1, h2, h3, h5]
+
 end Verif.C15
